@@ -60,5 +60,20 @@ int main(int argc, char **argv) {
         v_emit_bytes("srx", b, 32); fputc(',', v_out); v_emit_bytes("stx", b + 32, 32); fprintf(v_out, ",\"ret_c\":%d,\"ret_s\":%d}\n", rc, rs); }
     for (int i = 0; i < 2 + nrand / 16; i++) { unsigned char pk[32], sk[32], sd[32]; vrng_bytes(&R, sd, 32); crypto_box_seed_keypair(pk, sk, sd);
         fprintf(v_out, "{\"op\":\"box_seed_keypair\","); v_emit_bytes("seed", sd, 32); fputc(',', v_out); v_emit_bytes("pk", pk, 32); fputc(',', v_out); v_emit_bytes("sk", sk, 32); fprintf(v_out, "}\n"); }
+    /* every API built on X25519 reports failure exactly when the shared point is all-zero: the special encodings (low
+     * order, non-canonical, either top bit) and random keys as the peer's public key of box (both ciphers; easy, detached,
+     * open, precomputation), sealed boxes (both ciphers) and key exchange (either role). rets = return codes in that order. */
+    { int nsp = 0; while (nsp < 64 && special[nsp] && strlen(special[nsp]) == 64) { nsp++; if (nsp >= (int) (sizeof special / sizeof special[0])) break; }
+      for (int i = 0; i < nsp + 4; i++) { unsigned char pk[32], sk[32], mypk[32], n[24], m[8] = { 1, 2, 3, 4, 5, 6, 7, 8 }, c[8 + 48], mac[16], o[32], o2[32]; int rets[12];
+        if (i < nsp) hexto(special[i], pk); else { vrng_bytes(&R, sk, 32); crypto_scalarmult_base(pk, sk); if (i == nsp + 1) pk[31] |= 0x80; }
+        vrng_bytes(&R, sk, 32); crypto_scalarmult_base(mypk, sk); vrng_bytes(&R, n, 24);
+        rets[0] = crypto_box_easy(c, m, 8, n, pk, sk); rets[1] = crypto_box_detached(c, mac, m, 8, n, pk, sk);
+        rets[2] = crypto_box_curve25519xchacha20poly1305_easy(c, m, 8, n, pk, sk); rets[3] = crypto_box_curve25519xchacha20poly1305_detached(c, mac, m, 8, n, pk, sk);
+        rets[4] = crypto_box_seal(c, m, 8, pk); rets[5] = crypto_box_curve25519xchacha20poly1305_seal(c, m, 8, pk);
+        rets[6] = crypto_box_beforenm(o, pk, sk); rets[7] = crypto_box_curve25519xchacha20poly1305_beforenm(o, pk, sk);
+        rets[8] = crypto_kx_client_session_keys(o, o2, mypk, sk, pk); rets[9] = crypto_kx_server_session_keys(o, o2, mypk, sk, pk);
+        memset(c, 7, sizeof c); rets[10] = crypto_box_open_easy(m, c, 24, n, pk, sk) == -1 ? -1 : 0; rets[11] = crypto_scalarmult(o, sk, pk);
+        fprintf(v_out, "{\"op\":\"consumers\","); v_emit_bytes("pk", pk, 32); fputc(',', v_out); v_emit_bytes("sk", sk, 32); fprintf(v_out, ",\"rets\":[");
+        for (int j = 0; j < 12; j++) fprintf(v_out, j ? ",%d" : "%d", rets[j]); fprintf(v_out, "]}\n"); } }
     v_close(); return 0;
 }
